@@ -59,7 +59,7 @@ def settleSubs (cfg : Cfg) (p : Proc) (s : St) : List Tok × St :=
       | none => ([], s)
       | some n =>
         let (toks, stay, s) := selectFlows cfg p s t n.outs false
-        if stay then ([t] ++ toks, s) else (toks, s)
+        nextTurn s t.node (if stay then [t] ++ toks else toks)
 
 /-- `settle` with the decision procedure abstracted -/
 def settleW (r : Ready) (cfg : Cfg) (p : Proc) (s : St) : List Tok × St :=
